@@ -91,7 +91,7 @@ struct sent {
 	int has_value; int value_int;                                 /* event or routed value / result payload */
 	int is_error; int err_code; int has_result;
 	int result_items;                                             /* number of members when the result is an array (get) */
-	int payload_type;                                             /* JSON type of the result / error member of a response */
+	int payload_type;                                             /* JSON type of the result / error member of a response, of an event's value, of a routed value / args */
 };
 static struct sent LOG[MAXLOG]; static int nlog;
 static int sends;                 /* number of send attempts */
@@ -138,13 +138,13 @@ static int scn_send(const struct peer *p, char *rendered, size_t len)
 #endif
 		if (path) cpystr(s->path, sizeof(s->path), path->valuestring);
 		const cJSON *v = cJSON_GetObjectItem(params, "value");
-		if (v) { s->has_value = 1; s->value_int = v->valueint; }
+		if (v) { s->has_value = 1; s->value_int = v->valueint; s->payload_type = v->type; }
 	} else if (method && id) {
 		s->kind = K_ROUTED; record_id(s, id);
 		cpystr(s->path, sizeof(s->path), method->valuestring);
 		const cJSON *v = params ? cJSON_GetObjectItem(params, "value") : 0;
-		if (v) { s->has_value = 1; s->value_int = v->valueint; }
-		else if (params) { s->has_value = 1; s->value_int = params->valueint; }
+		if (v) { s->has_value = 1; s->value_int = v->valueint; s->payload_type = v->type; }
+		else if (params) { s->has_value = 1; s->value_int = params->valueint; s->payload_type = params->type; }
 	} else if (id) {
 		s->kind = K_RESPONSE; record_id(s, id);
 		const cJSON *err = cJSON_GetObjectItem(m, "error");
